@@ -38,7 +38,7 @@ fn main() {
         "utf32-trace" => utrace::run(&get("tier", "quick"), get("seed", "1").parse().unwrap(), get("shards", "8").parse().unwrap(), &get("out", "/verif/work/utrace")),
         "score-trace" => strace::run(&get("tier", "quick"), get("seed", "1").parse().unwrap(), get("shards", "8").parse().unwrap(), &get("out", "/verif/work/strace")),
         "sort-trace" => sorttrace::run(&get("tier", "quick"), get("seed", "1").parse().unwrap(), get("shards", "8").parse().unwrap(), &get("out", "/verif/work/sorttrace")),
-        "boxcar-sched" => boxsched::run(&get("tier", "quick"), get("seed", "1").parse().unwrap(), get("shards", "8").parse().unwrap(), &get("out", "/verif/work/boxsched"), a.get("only").map(|s| s.as_str())),
+        "boxcar-sched" => boxsched::run(&get("tier", "quick"), get("seed", "1").parse().unwrap(), get("shards", "8").parse().unwrap(), &get("out", "/verif/work/boxsched"), a.get("only").map(|s| s.as_str()), a.get("shard").map(|s| s.parse().unwrap()), get("from", "0").parse().unwrap()),
         "nucleo-sched" => nucsched::run(&get("tier", "quick"), get("seed", "1").parse().unwrap(), get("shards", "8").parse().unwrap(), &get("out", "/verif/work/nucsched"), a.get("only").map(|s| s.as_str()), a.get("shard").map(|s| s.parse().unwrap()), get("from", "0").parse().unwrap()),
         "lifecycle-replay" => lifecycle::run(&get("scripts", "/verif/work/scripts.ndjson"), &get("out", "/verif/work/lifecycle.ndjson")),
         "matcher-one" => mtrace::run_one(&get("input", ""), &get("out", "/verif/work/one.ndjson")),
